@@ -29,7 +29,7 @@ RULE = (
     "enumeration of 'reject_grid' -> ValueError iff the statement's predicate, success otherwise. "
     "Non-trivial = some duration is an exact decimal multiple of w whose float quotient is not an integer."
 )
-MUST_HIT = ["hostile_min", "hostile_max", "hostile_sil", "input_reader", "event_of_exactly_minwin", "window_not_whole_samples",
+MUST_HIT = ["reader_with_conflicting_window_argument", "hostile_min", "hostile_max", "hostile_sil", "input_reader", "event_of_exactly_minwin", "window_not_whole_samples",
             "grid_reject", "grid_accept"]
 ASSUMPTIONS = [
     "quotients between 1e-11 and 1e-8 from an integer are never generated (statement says 1e-9, code uses 1e-10)",
@@ -126,6 +126,10 @@ def check_case(case, rec):
     if via_reader:
         src = auditok.AudioReader(data, block_dur=w, sampling_rate=sr, sample_width=2, channels=1)
         classes.add("input_reader")
+        if case.get("conflict_aw"):
+            # for a reader input the window is the reader's block duration, whatever else is passed
+            kw["analysis_window" if case["conflict_aw"] == "long" else "aw"] = w * 2.5
+            classes.add("reader_with_conflicting_window_argument")
     else:
         src = data
         kw.update(analysis_window=w, sampling_rate=sr, sample_width=2, channels=1)
@@ -186,6 +190,7 @@ def explicit_cases():
     return [
         base,
         dict(base, via_reader=True, tail=4),
+        dict(base, via_reader=True, conflict_aw="long"),
         dict(base, w="0.02", min=[7, "mul"], max=[29, "mul"], sil=[7, "mul"]),
         dict(base, w="0.03", sr=8000, min=[9, "mul"], max=[19, "third"], sil=[0, "mul"], drop=True, strict=True),
         dict(base, w="0.1", min=[3, "mul"], max=[3, "mul"], sil=[2, "half"], order="fgh"),
@@ -220,7 +225,8 @@ def strategy(draw):
         "min": [kmin if fmin == "mul" else kmin - 1, fmin],
         "max": [kmax, fmax], "sil": [ksil, fsil],
         "drop": draw(st.booleans()), "strict": draw(st.booleans()),
-        "via_reader": draw(st.booleans()), "order": order,
+        "via_reader": draw(st.booleans()), "conflict_aw": draw(st.sampled_from([None, None, "long", "short"])),
+        "order": order,
         "trail": draw(st.integers(0, 3)), "tail": draw(st.integers(0, B - 1) | st.just(0)),
     }
 
